@@ -34,6 +34,8 @@ func TestVerifC03Race(t *testing.T) {
 	rounds := verifrt.Scale(25, 400)
 	verifrt.SetJitter(0.25)
 	defer verifrt.SetJitter(0)
+	verifrt.SetLockSpinLimit(20_000_000)
+	defer verifrt.SetLockSpinLimit(0)
 	for rd := 0; rd < rounds; rd++ {
 		if !verifrt.WantCase(check, rd) {
 			continue
@@ -71,6 +73,9 @@ func TestVerifC03Race(t *testing.T) {
 				defer func() {
 					if r := recover(); r != nil {
 						kind := "panic"
+						if _, ok := r.(verifrt.LockStuck); ok {
+							kind = "lock-wait-forever"
+						}
 						if addr, ok := verifrt.FaultAddr(r); ok {
 							kind = "fault"
 							if _, ok := q.Find(addr); ok {
